@@ -72,6 +72,7 @@ type c06Config struct {
 	Fault     string // "" | writeerr | syncerr | corefail-before | corefail-after: a failing destination must not prevent termination
 	Before    []int  // lengths of ordinary entries logged before the terminal one (they sit in the buffer)
 	Family    string // "" | sibling-hooks | child-hooks | parent-hooks: another member of the logger family is derived with different terminal hooks (and used) first
+	Deriv     string // "" | with | withlazy | named | hooks | hooks+withlazy | hooks+with | withlazy+hooks: how the logger under test is derived from the one built on the core
 }
 
 // c06FailCore accepts every entry and fails to write it.
@@ -287,6 +288,7 @@ func propC06(t *rapid.T) {
 		}
 	}
 	cfg.Family = rapid.SampledFrom([]string{"", "", "sibling-hooks", "child-hooks", "parent-hooks"}).Draw(t, "family")
+	cfg.Deriv = rapid.SampledFrom([]string{"", "", "with", "withlazy", "named", "hooks", "hooks+withlazy", "hooks+with", "withlazy+hooks"}).Draw(t, "derivation")
 	c06RunInProcess(t, cfg)
 	enabled := c06Enabled(cfg)
 	nt := !enabled || cfg.Hook == "nil" || cfg.Hook == "noop" || (enabled && cfg.Core != "nop")
@@ -349,6 +351,23 @@ func c06RunInProcess(t interface{ Fatalf(string, ...any) }, cfg c06Config) {
 		lg = parent.Named("kid")
 		_ = parent.WithOptions(zap.WithFatalHook(otherHook), zap.WithPanicHook(otherHook), zap.OnFatal(zapcore.WriteThenGoexit))
 	}
+	entryHook := func(zapcore.Entry) error { return nil }
+	switch cfg.Deriv {
+	case "with":
+		lg = lg.With(zap.Int("ctx", 1))
+	case "withlazy":
+		lg = lg.WithLazy(zap.Int("ctx", 1))
+	case "named":
+		lg = lg.Named("derived")
+	case "hooks":
+		lg = lg.WithOptions(zap.Hooks(entryHook))
+	case "hooks+withlazy":
+		lg = lg.WithOptions(zap.Hooks(entryHook)).WithLazy(zap.Int("ctx", 1))
+	case "hooks+with":
+		lg = lg.WithOptions(zap.Hooks(entryHook)).With(zap.Int("ctx", 1))
+	case "withlazy+hooks":
+		lg = lg.WithLazy(zap.Int("ctx", 1)).WithOptions(zap.Hooks(entryHook))
+	}
 	for i, n := range cfg.Before {
 		lg.Info(fmt.Sprintf("before-%d-%s", i, strings.Repeat("b", n)))
 	}
@@ -367,6 +386,16 @@ func c06RunInProcess(t interface{ Fatalf(string, ...any) }, cfg c06Config) {
 			panicked = recover()
 			if panicked == nil && !returned {
 				goexited = true
+			}
+			if panicked != nil {
+				// what a recovery handler typically does next: log through the standard library. The value that was
+				// panicked with must not change under its feet (the log package recycles its line buffers).
+				// (messages no longer than the original, so that a recycled buffer is overwritten in place rather than regrown)
+				noise := log.New(&memSink{}, "", 0) // (not io.Discard: the log package skips formatting for it)
+				n := len(fmt.Sprint(panicked))
+				for _, k := range []int{n, n / 2, 1, n} {
+					noise.Print(strings.Repeat("Z", k))
+				}
 			}
 		}()
 		f()
